@@ -194,6 +194,9 @@ class State:
         feas = [k for k, c in enumerate(conds) if self.feasible(c)]
         if not feas:
             raise PathEnd("infeasible")
+        if getattr(self, "closed", False) and len(feas) > 1:
+            # the exploration of this path is over: a decision taken now would silently drop the other alternatives
+            raise Unsupported("a branch with several feasible outcomes after the path was closed (evaluate it inside the explored call)")
         self.decisions.append(feas[0])
         self.alts.append(feas[1:])
         self.assume(conds[feas[0]])
@@ -235,6 +238,7 @@ def explore(run, max_paths=4000):
         st = State(prefix)
         try:
             kind, value = run(st)
+            st.closed = True
             results.append(PathResult(kind, value, st))
         except PathEnd as e:
             results.append(PathResult("end", None, st, str(e)))
